@@ -525,7 +525,8 @@ def c09(v, h, op, res, k, prev, seen_requests):
         first = seen_requests.get(sig)
         if first is None:
             seen_requests[sig] = res
-        elif 'ok' in first and prev is not None:
+        elif 'ok' in first and prev is not None and not (name == 'commit' and first['ok'].get('rc')):
+            # (a commit answered rc 1 -- wrong number of jobs -- was refused: Props_C09.C09_commit_retry_later is about rc 0)
             if v.obs != prev.obs:
                 h.report('C09', f'C09:retry-changed-state:{name}', k, diff_obs(prev.obs, v.obs))
             if name in ('create_batch', 'create_update') and res != first:
@@ -607,8 +608,81 @@ def c41(v, h, op, res, k, prev):
 # ----------------------------------------------------------------------------------------------------------------------
 # driver of the per-op checks
 # ----------------------------------------------------------------------------------------------------------------------
+def race_info(ent):
+    r = ent.get('result') if isinstance(ent, dict) else None
+    if isinstance(r, dict) and isinstance(r.get('ok'), dict) and isinstance(r['ok'].get('race'), dict):
+        return r['ok']['race']
+    return None
+
+
+def flatten_races(ops, ents):
+    """An executed op "race" (two overlapping requests, runner.Live._race) is presented to the per-op checks as its two requests in
+    the order in which they FINISHED, each with its own answer; the state between them is the projection the runner took when the
+    first of them had finished (`obs_mid`; the other request had no committed write by then).  Returns (ops, ents, origin indices)."""
+    if not any(isinstance(op, dict) and op.get('op') == 'race' for op in ops):
+        return ops, ents, list(range(len(ops)))
+    o2, e2, orig = [], [], []
+    for i, (op, ent) in enumerate(zip(ops, ents)):
+        info = race_info(ent) if isinstance(op, dict) and op.get('op') == 'race' else None
+        if info is None:
+            o2.append(op)
+            e2.append(ent)
+            orig.append(i)
+            continue
+        x, y = info['order']
+        o2 += [op[x], op[y]]
+        e2 += [{'result': info[x], 'obs': ent.get('obs_mid') or ent['obs']}, {'result': info[y], 'obs': ent['obs']}]
+        orig += [i, i]
+    return o2, e2, orig
+
+
+def c09_race(h, op, ent, k):
+    """C09 on two OVERLAPPING deliveries (property level, implementation only).
+    A request and its verbatim retry: the state after both equals the state after a single delivery (= the state when the first
+    of the two had finished), and batch-create / update-create / job-bunch / commit answer both deliveries identically.
+    Two different requests: two update-creates of one batch reserve different update ids and disjoint id ranges, each answer is
+    the row of the updates table; two batch-creates get different batches.  (Contiguity of the ranges after the race: clause
+    'update-ranges-not-contiguous' of c09 on the flattened history.)"""
+    info = race_info(ent)
+    if info is None:
+        return
+    a, b = op['first'], op['second']
+    ra, rb = info['first'], info['second']
+    kind = f"{a.get('op')}-vs-{b.get('op')}"
+    if a == b:
+        first = info[info['order'][0]]
+        if 'ok' in first and not (a['op'] == 'commit' and first['ok'].get('rc')):
+            mid = ent.get('obs_mid')
+            if mid is not None and ent['obs'] != mid:
+                h.report('C09', f'C09:race-retry-changed-state:{a["op"]}', k, {'answers': [ra, rb], 'pause': op.get('pause'), 'diff': diff_obs(mid, ent['obs'])})
+            if a['op'] != 'create_groups' and ra != rb:
+                h.report('C09', f'C09:race-retry-answered-differently:{a["op"]}', k, {'first': ra, 'second': rb, 'pause': op.get('pause')})
+        return
+    if 'ok' not in ra or 'ok' not in rb:
+        return
+    if a['op'] == 'create_batch' and b['op'] == 'create_batch':
+        if ra['ok']['batch'] == rb['ok']['batch']:
+            h.report('C09', 'C09:race-two-create-requests-one-batch', k, {'first': ra, 'second': rb})
+    if a['op'] == 'create_update' and b['op'] == 'create_update' and a.get('batch') == b.get('batch'):
+        rows = {(r[0], r[1]): r for r in ent['obs']['updates']}
+        rng = []
+        for q, r in ((a, ra['ok']), (b, rb['ok'])):
+            row = rows.get((q['batch'], r['update']))
+            if row is None or row[2] != r['start_job'] or row[4] != r['start_group'] or row[3] != q['n_jobs'] or row[5] != q['n_groups']:
+                h.report('C09', 'C09:race-answer-is-not-the-reserved-range', k, {'request': q, 'answer': r, 'row': row})
+            rng.append((r['update'], r['start_job'], r['start_job'] + q['n_jobs'], r['start_group'], r['start_group'] + q['n_groups']))
+        (u1, j1, j1e, g1, g1e), (u2, j2, j2e, g2, g2e) = rng
+        if u1 == u2 or (j1 < j2e and j2 < j1e) or (g1 < g2e and g2 < g1e):
+            h.report('C09', 'C09:race-updates-share-ids', k, {'kind': kind, 'first': ra, 'second': rb})
+
+
 def check_history(ops, ents, props=None):
     h = Hist()
+    if props is None or 'C09' in props:
+        for k, (op, ent) in enumerate(zip(ops, ents)):
+            if isinstance(op, dict) and op.get('op') == 'race':
+                c09_race(h, op, ent, k)
+    ops, ents, origin = flatten_races(ops, ents)
     prev = None
     seen = {}
     pools = {}
@@ -632,6 +706,9 @@ def check_history(ops, ents, props=None):
         c41(v, h, op, res, k, prev)
         prev = v
     fails = list(h.first.values())
+    if len(origin) != len(set(origin)):      # indices of the flattened history -> indices of the history as given
+        racekeys = {id(f) for f in fails if f.key.startswith('C09:race-')}
+        fails = [f if (id(f) in racekeys or f.index is None or not (0 <= f.index < len(origin))) else f._replace(index=origin[f.index]) for f in fails]
     if props:
         fails = [f for f in fails if f.prop in props]
     return fails, h, prev
